@@ -434,7 +434,8 @@ def miri_threads_engine(prop, tier, seed):
         variants = "-"
         if i % 4 == 1:
             fams = ["kuznyechik"] + take(2)
-            variants = "kuz,kuz_z"
+            # SSE2 backend and, alternating, the table-driven soft backend (zeroize on one of them each time)
+            variants = "kuz,kuz_soft_z" if (i // 4) % 2 == 0 else "kuz_z,kuz_soft"
         elif groups:
             fams = groups.pop(0)
             if len(fams) < 4:
@@ -460,6 +461,17 @@ def miri_threads_engine(prop, tier, seed):
         plans.append(dict(wl_seed=seed * 1000 + 700 + j, nthreads=r.choice([3, 4]), nops=r.choice([2, 3]), mode="firstuse" if j % 2 == 0 else "shared",
                           fams=[["aes128", "aes192", "aes256"][j % 3], ["aes256", "aes128", "aes192"][j % 3]], miri_seeds=(700 + j * per, 700 + j * per + per),
                           rate=r.choice([0.003, 0.01, 0.03]), variants="aes_auto,aes_auto_z,aes_autoc_z", target="x86_64-ni", grant=True))
+    # coldfirst workloads: the main thread touches nothing of the listed families (no shared instance, the model is
+    # evaluated after the join); every worker constructs and uses every listed family once, in its own order
+    cold_fams = [f for f in reps] if quick else [f for f, c in fam_crate if c != "kuznyechik"]
+    crot = (seed * 5) % max(1, len(cold_fams))
+    cold_fams = cold_fams[crot:] + cold_fams[:crot]
+    gsz = 9 if quick else 8
+    for j in range(0, len(cold_fams), gsz):
+        plans.append(dict(wl_seed=seed * 1000 + 400 + j, nthreads=3, nops=1, mode="coldfirst", fams=cold_fams[j:j + gsz],
+                          miri_seeds=(400 + j * 2, 400 + j * 2 + (4 if quick else 8)), rate=r.choice([0.003, 0.01, 0.03]), variants="-", target="x86_64", grant=False))
+    plans.append(dict(wl_seed=seed * 1000 + 499, nthreads=3, nops=1, mode="coldfirst", fams=["kuznyechik", "aes128"],
+                      miri_seeds=(499, 499 + (4 if quick else 8)), rate=0.01, variants="kuz_soft,kuz_z,aes_soft_z,aes_auto_z", target="x86_64", grant=False))
     # storm workloads: one thread pushes 48 blocks through every shared instance while the others clone / convert
     # the same instances and use the copies - eight crates per run, rotating with the seed (quick), every family (thorough)
     storm_fams = [f for f, c in fam_crate if c != "kuznyechik" and f in reps] if quick else [f for f, c in fam_crate if c != "kuznyechik"]
